@@ -155,6 +155,9 @@ func (x *Exec) smallEnough(fn *ssa.Function) bool {
 // arbitraryCall: unknown callee; everything reachable may change, result unconstrained.
 func (x *Exec) arbitraryCall(f *Frame, st *State, ins ssa.Instruction, fn *ssa.Function, args []Value) Value {
 	tok := x.B.Fresh("tok", RefS)
+	for _, a := range args {
+		x.shareValue(a)
+	}
 	x.havocAll(st, tok)
 	if f.panicHook != nil {
 		f.panicHook(st.clone(), "callee "+fn.Name()+" may panic", ins)
@@ -195,11 +198,61 @@ func (x *Exec) opaqueCall(f *Frame, st *State, ins ssa.Instruction, fn *smt.Term
 		}
 		rs = append(rs, x.fromLeaves(res.At(i).Type(), &ts))
 	}
+	for _, a := range args {
+		x.shareValue(a)
+	}
+	pre := st.clone()
 	x.havocAll(st, ntok)
 	if f != nil && f.panicHook != nil {
 		f.panicHook(st.clone(), "operand call may panic", ins)
 	}
+	x.assumeFuncType(f, st, pre, ins, args, rs)
 	return resultValue(rs)
+}
+
+// assumeFuncType: the callee is a value of a named function type with an assumed contract
+// ("functype" in the contract file): its ensures clauses hold after the call returns.
+func (x *Exec) assumeFuncType(f *Frame, st, pre *State, ins ssa.Instruction, args, rs []Value) {
+	ci, ok := ins.(ssa.CallInstruction)
+	if !ok || f == nil {
+		return
+	}
+	named, ok := ci.Common().Value.Type().(*types.Named)
+	if !ok || named.Obj().Pkg() == nil {
+		return
+	}
+	db := x.Specs[named.Obj().Pkg().Path()]
+	if db == nil {
+		return
+	}
+	sp := db.Funcs["type:"+named.Obj().Name()]
+	if sp == nil {
+		return
+	}
+	pkg := x.Prog.Package(named.Obj().Pkg())
+	if pkg == nil || pkg.Func("init") == nil {
+		return
+	}
+	sig := named.Underlying().(*types.Signature)
+	cf := x.newFrame(pkg.Func("init"), f)
+	i := 0
+	for _, pn := range strings.Split(sp.Attrs["params"], ",") {
+		if pn != "" && i < len(args) {
+			cf.overTV[pn] = TV{args[i], sig.Params().At(i).Type()}
+			i++
+		}
+	}
+	for j, rn := range sp.Results {
+		if j < len(rs) {
+			cf.overTV[rn] = TV{rs[j], sig.Results().At(j).Type()}
+		}
+	}
+	x.note("assumed contract of function type " + named.Obj().Name() + ": " + sp.File)
+	x.NoObl++
+	for _, c := range sp.Of("ensures") {
+		st.PC = x.B.And(st.PC, cf.evalBool(c.Expr, st, pre))
+	}
+	x.NoObl--
 }
 
 // curToken names the current heap version for opaque calls.
